@@ -67,7 +67,21 @@ class C11(Prop):
                         rows.append({'name': nm, 'az': rng.uniform(0, 360), 'toa': rng.uniform(0, 180), 'measured': [m],
                                      'error': [abs(m) * 10 ** rng.uniform(-2, 0)], 'ipp': None})
                     types[key] = rows
-                yield {'kind': 'relmatrix', 'event': {'types': types, 'loc': None, 'weights': None}}
+                ev = {'types': types, 'loc': None, 'weights': None}
+                if rng.random() < 0.5:
+                    # location samples: a permuted superset of the stations (one data station may be missing)
+                    names = sorted({r['name'] for rows in types.values() for r in rows})
+                    extra = [n_ for n_ in dg.station_names(rng, 2) if n_ not in names]
+                    lnames = names + extra
+                    rng.shuffle(lnames)
+                    base = {}
+                    for rows in types.values():
+                        for r in rows:
+                            base.setdefault(r['name'], (r['az'], r['toa']))
+                    samples = [[(base.get(n_, (10.0, 20.0))[0] + rng.gauss(0, 5), min(180.0, max(0.0, base.get(n_, (10.0, 20.0))[1] + rng.gauss(0, 3))))
+                                for n_ in lnames] for _k in range(rng.randint(1, 3))]
+                    ev['loc'] = {'names': lnames, 'samples': samples}
+                yield {'kind': 'relmatrix', 'event': ev}
             else:
                 which = rng.choice(['pol', 'pp', 'ar'])
                 ev = dg.gen_event(rng, want_pol={'pol': 'pol', 'pp': 'pp', 'ar': 'none'}[which], want_ar=(which == 'ar'))
@@ -100,9 +114,11 @@ class C11(Prop):
             return {'pair': [[flat(r, np) for r in np.asarray(a)] for a in pair],
                     'single': [[flat(r, np) for r in np.asarray(inv.station_angles(st, ph, radians=case['radians']))] for ph in (num, den)]}
         if k == 'relmatrix':
-            data, _l = dg.to_mtfit(case['event'], np)
-            a, amp, perr, names = inv.relative_amplitude_ratio_matrix(data, False)
-            return {'a': [flat(r, np) for r in np.asarray(a)[:, 0, :]], 'amp': flat(amp, np), 'perr': flat(perr, np), 'names': list(names)}
+            data, loc = dg.to_mtfit(case['event'], np)
+            a, amp, perr, names = inv.relative_amplitude_ratio_matrix(data, loc)
+            a = np.asarray(a)
+            return {'a': [[flat(a[i, kk, :], np) for kk in range(a.shape[1])] for i in range(a.shape[0])], 'amp': flat(amp, np), 'perr': flat(perr, np),
+                    'names': list(names)}
         data, loc = dg.to_mtfit(case['event'], np)
         if k == 'polmatrix':
             a, err, ipp = inv.polarity_matrix(data, loc)
@@ -236,20 +252,31 @@ class C11(Prop):
         if k == 'relmatrix':
             # by-name specification: types in sorted key order, stations in file order; |amplitude|, error / |amplitude| >= 0
             exp = []
+            loc = case['event']['loc']
             for key in sorted(case['event']['types']):
                 ph = key.lower().replace('_', '').split('amplitude')[0]
                 if ph.endswith('rms'):
                     ph = ph[:-3]
                 ph = ph.rstrip('q')
-                for r in case['event']['types'][key]:
-                    exp.append((r['name'], dg.coeff_row(ph, r['az'], r['toa']), abs(r['measured'][0]), r['error'][0] / abs(r['measured'][0])))
+                rows = case['event']['types'][key]
+                if loc is None:
+                    for r in rows:
+                        exp.append((r['name'], [dg.coeff_row(ph, r['az'], r['toa'])], abs(r['measured'][0]), r['error'][0] / abs(r['measured'][0])))
+                else:
+                    # with location samples: the stations present in both, in sorted name order, with the angles of every sample
+                    byname = {r['name']: r for r in rows}
+                    pos = {n_: i for i, n_ in enumerate(loc['names'])}
+                    for n_ in sorted(set(byname) & set(pos)):
+                        r = byname[n_]
+                        exp.append((n_, [dg.coeff_row(ph, smp[pos[n_]][0], smp[pos[n_]][1]) for smp in loc['samples']], abs(r['measured'][0]),
+                                    r['error'][0] / abs(r['measured'][0])))
             if impl['names'] != [e[0] for e in exp] or len(impl['a']) != len(exp):
-                return [('misaligned', 'relative-amplitude stations %r, the data list %r' % (impl['names'], [e[0] for e in exp]), None)]
+                return [('misaligned', 'relative-amplitude stations %r, the rows belong to %r' % (impl['names'], [e[0] for e in exp]), None)]
             for j, e in enumerate(exp):
-                if not (all(close(x, y, atol=1e-12) for x, y in zip(impl['a'][j], e[1])) and close(impl['amp'][j], e[2], rtol=1e-12) and
-                        close(impl['perr'][j], e[3], rtol=1e-12)):
+                if not (len(impl['a'][j]) == len(e[1]) and all(close(x, y, atol=1e-12) for ra, rb in zip(impl['a'][j], e[1]) for x, y in zip(ra, rb)) and
+                        close(impl['amp'][j], e[2], rtol=1e-12) and close(impl['perr'][j], e[3], rtol=1e-12)):
                     out.append(('misaligned', 'relative-amplitude row %d (%s): coefficients / amplitude / fractional error %r, %r, %r; the '
-                                'station\'s own values are %r, %r, %r' % (j, e[0], impl['a'][j][:3], impl['amp'][j], impl['perr'][j], e[1][:3], e[2], e[3]), None))
+                                'station\'s own values are %r, %r, %r' % (j, e[0], impl['a'][j][0][:3], impl['amp'][j], impl['perr'][j], e[1][0][:3], e[2], e[3]), None))
                     break
             return out
         if k == 'angles-ratio':
@@ -312,7 +339,7 @@ class C11(Prop):
         if k == 'angles-ratio':
             return 'angles-ratio/%s' % ('rad' if case['radians'] else 'deg')
         if k == 'relmatrix':
-            return 'relmatrix/%dtypes' % len(case['event']['types'])
+            return 'relmatrix/%dtypes/%s' % (len(case['event']['types']), 'loc' if case['event']['loc'] else 'noloc')
         ev = case['event']
         return '%s/%dtypes/%s' % (k, len(ev['types']), 'loc' if ev['loc'] else 'noloc')
 
